@@ -1,6 +1,7 @@
 // Copyright (c) Microsoft Corporation
 // SPDX-License-Identifier: MIT
 fn main() {
+    println!("cargo::rustc-check-cfg=cfg(azure_guestproxyagent_verif)");
     #[cfg(windows)]
     {
         static_vcruntime::metabuild();
